@@ -2,6 +2,7 @@ package ir
 
 import (
 	"go/ast"
+	"go/constant"
 	"go/token"
 	"go/types"
 	"os"
@@ -155,6 +156,10 @@ func (f *Func) pruneFlagEdgesN(g *cfgx.Graph, depth int) {
 			if t.Kind() == types.Bool {
 				return 1
 			}
+			// a string is followed like a nilable value, the empty string standing for nil (`if reason != ""`)
+			if t.Kind() == types.String {
+				return 2
+			}
 		case *types.Interface, *types.Pointer, *types.Slice, *types.Map, *types.Signature, *types.Chan:
 			return 2
 		}
@@ -171,6 +176,21 @@ func (f *Func) pruneFlagEdgesN(g *cfgx.Graph, depth int) {
 		return info.Defs[id]
 	}
 	isNil := func(e ast.Expr) bool {
+		if tv, has := info.Types[ast.Unparen(e)]; has && tv.Value != nil && tv.Value.Kind() == constant.String {
+			return constant.StringVal(tv.Value) == ""
+		}
+		// the typed zero the aggregate splitting writes for a field a literal leaves out
+		if cl, isLit := ast.Unparen(e).(*ast.CompositeLit); isLit && cl.Type == nil && len(cl.Elts) == 0 {
+			if tv, has := info.Types[cl]; has && tv.Type != nil {
+				switch t := tv.Type.Underlying().(type) {
+				case *types.Interface, *types.Pointer, *types.Slice, *types.Map, *types.Signature, *types.Chan:
+					return true
+				case *types.Basic:
+					return t.Kind() == types.String
+				}
+			}
+			return false
+		}
 		id, ok := ast.Unparen(e).(*ast.Ident)
 		if !ok {
 			return false
@@ -296,6 +316,16 @@ func (f *Func) pruneFlagEdgesN(g *cfgx.Graph, depth int) {
 				tested[o] = true
 			} else if o, _, ok := nilTest(e.Cond); ok && varKind(o) == 2 {
 				tested[o] = true
+			}
+		}
+	}
+	// a bool that is returned as it stands is followed too: rules ask what a path reports at its exit
+	for _, n := range g.Nodes {
+		if rs, ok := n.AST.(*ast.ReturnStmt); ok {
+			for _, r := range rs.Results {
+				if o := objOf(r); o != nil && declared[o] && varKind(o) == 1 {
+					tested[o] = true
+				}
 			}
 		}
 	}
@@ -517,6 +547,20 @@ func (f *Func) pruneFlagEdgesN(g *cfgx.Graph, depth int) {
 			if isNil(r) {
 				return 2
 			}
+			if tv, has := info.Types[r]; has && tv.Value != nil && tv.Value.Kind() == constant.String {
+				return 1 // a non-empty constant string
+			}
+			// a package-level error variable (a sentinel such as ErrFutureBlock) is not nil
+			switch x := r.(type) {
+			case *ast.Ident:
+				if v, ok := info.Uses[x].(*types.Var); ok && v.Pkg() != nil && v.Parent() == v.Pkg().Scope() && IsErrorType(v.Type()) {
+					return 1
+				}
+			case *ast.SelectorExpr:
+				if v, ok := info.Uses[x.Sel].(*types.Var); ok && !v.IsField() && v.Pkg() != nil && v.Parent() == v.Pkg().Scope() && IsErrorType(v.Type()) {
+					return 1
+				}
+			}
 			switch x := r.(type) {
 			case *ast.UnaryExpr:
 				if x.Op == token.AND {
@@ -535,6 +579,15 @@ func (f *Func) pruneFlagEdgesN(g *cfgx.Graph, depth int) {
 						switch o.Pkg().Path() + "." + o.Name() {
 						case "fmt.Errorf", "errors.New":
 							return 1
+						case "fmt.Sprintf":
+							// a constant format that starts with literal text yields a non-empty string
+							if len(x.Args) > 0 {
+								if tv, has := info.Types[ast.Unparen(x.Args[0])]; has && tv.Value != nil && tv.Value.Kind() == constant.String {
+									if fs := constant.StringVal(tv.Value); fs != "" && fs[0] != '%' {
+										return 1
+									}
+								}
+							}
 						}
 					}
 				}
